@@ -2281,7 +2281,7 @@ class BitmapAdapter(se.Adapter):
         self._shape = shape
 
     def encode(self, val: Any, ctx: Optional[ParseContext]) -> Any:
-        if val and isinstance(val[0], bytes):
+        if len(val) and isinstance(val[0], bytes):
             return b''.join(val)
         return np.packbits(np.array(val, dtype=np.uint8).flatten(), bitorder="little").tobytes()
 
